@@ -1026,7 +1026,10 @@ bool Session::send_process(Message *msg) // called from the connection (possibly
 		if (is_dup)
 		{
 			if (_loginParameters._always_seqnum_assign)
+			{
 				delete msg->Header()->remove(Common_PossDupFlag);
+				is_dup = false;
+			}
 		}
 		else
 		{
